@@ -3401,7 +3401,9 @@ evhttp_response_code_(struct evhttp_request *req, int code, const char *reason)
 	req->response_code = code;
 	if (req->response_code_line != NULL)
 		mm_free(req->response_code_line);
-	if (reason == NULL)
+	/* a reason phrase is one line: anything else would put further header
+	 * lines (or a message) of the caller's choosing on the wire */
+	if (reason == NULL || strpbrk(reason, "\r\n") != NULL)
 		reason = evhttp_response_phrase_internal(code);
 	req->response_code_line = mm_strdup(reason);
 	if (req->response_code_line == NULL) {
